@@ -111,16 +111,17 @@ PROPERTIES["C05"] = {
 PROPERTIES["C07"] = {
     "level": "fault_enumeration",
     "budget_s": {"quick": 80, "thorough": 1500},
-    "rule": "one evaluation = one Reader life cycle script (optional header(), k reads, then read-to-EOF / close() / destructor / close()+read() / close()+header()) on one input with at most one hard fault (EIO on the j-th read(2), close(2) failing, truncation at L, one corruption op) plus soft perturbation (short reads, clamped decompressor output, small queues and buffers), under a seeded schedule. Oracles: every call returns, no thread or fd left, storage-fault outcome equals the reference outcome, a fired I/O error is reported by some call, no data after an error, no read(2) after close(). "
+    "rule": "one evaluation = one Reader life cycle script (optional header(), k reads, then read-to-EOF / close() / destructor / close()+read() / close()+header()) on one input (file, memory buffer, or - mode c07url - a URL served by a simulated child process through a bounded pipe) with at most one hard fault (EIO on the j-th read(2), close(2) failing, truncation at L, one corruption op; for URLs: transfer ends with a non-zero exit status after all or part of the data, fork() fails) plus soft perturbation (short reads, clamped decompressor output, small queues and buffers), under a seeded schedule. Oracles: every call returns, no thread or fd left, storage-fault outcome equals the reference outcome, a fired I/O error is reported by some call, no data after an error, no read(2) after close(). "
             "Non-trivial = a fault fired or >= 2 threads enabled at once; distinct = distinct event-log signature.",
     "modes": [
-        {"mode": "c07", "harness": "reader", "runs": {"quick": 40000, "thorough": 1500000}, "share": 0.6},
-        {"mode": "c07enum", "harness": "reader", "runs": {"quick": 600, "thorough": 20000}, "stall_s": 300, "share": 0.4},
+        {"mode": "c07", "harness": "reader", "runs": {"quick": 40000, "thorough": 1500000}, "share": 0.45},
+        {"mode": "c07url", "harness": "reader", "runs": {"quick": 15000, "thorough": 600000}, "share": 0.2},
+        {"mode": "c07enum", "harness": "reader", "runs": {"quick": 600, "thorough": 20000}, "stall_s": 300, "share": 0.35},
     ],
-    "expected_probes": ["hard fault fired", "exception reached the caller", "consumer abandoned the Reader early", "enumerated truncation lengths", "enumerated EIO read indices"],
-    "components_real": READER_REAL,
-    "components_stubbed": READER_STUB,
-    "assumptions": COMMON_ASSUMPTIONS + ["mode c07: fault positions (j, L, corruption offsets) and stop points k are sampled by the seed; mode c07enum: every truncation length and every failing read index is enumerated for small inputs (<= 900 bytes) with the script header + read to EOF + close"],
+    "expected_probes": ["hard fault fired", "exception reached the caller", "consumer abandoned the Reader early", "enumerated truncation lengths", "enumerated EIO read indices", "URL input: child process started", "URL input: failing transfer", "URL input: fork failed", "writer blocked on a full pipe", "write to a pipe without readers (EPIPE)"],
+    "components_real": READER_REAL + ["Reader::execute()/open_input_file_or_url()/close() child-process handling for URL input (mode c07url)"],
+    "components_stubbed": READER_STUB + ["pipe()/fork()/waitpid(): bounded in-memory pipe with blocking ends; the curl child is a simulated thread that writes the input in pieces, gets EPIPE when the read end is gone, may exit non-zero or stop early; fork() may fail (mode c07url)"],
+    "assumptions": COMMON_ASSUMPTIONS + ["mode c07url: the child behaves like curl with SIGPIPE ignored (exit status 23 on EPIPE); the read end the real child closes before exec is not modelled; damaged .gz inputs are not compared differentially in this mode", "mode c07: fault positions (j, L, corruption offsets) and stop points k are sampled by the seed; mode c07enum: every truncation length and every failing read index is enumerated for small inputs (<= 900 bytes) with the script header + read to EOF + close"],
 }
 
 PROPERTIES["C03"] = {
@@ -200,7 +201,7 @@ PROPERTIES["C12"] = {
         {"mode": "handler", "harness": "c12", "runs": {"quick": 3000, "thorough": 100000}, "share": 0.15},
         {"mode": "nospace", "harness": "c12", "runs": {"quick": 600, "thorough": 10000}, "share": 0.15},
     ],
-    "expected_probes": ["mremap moved the mapping", "mapping placed at a fresh, never reused address", "dense mmap/file vector grew beyond its first 1 Mi elements", "dumped as array and reloaded", "dumped as list and reloaded", "full disk reported as std::system_error", "sparse or dense mmap/file vector grew beyond 2^20 entries while filling"],
+    "expected_probes": ["mremap moved the mapping", "mapping placed at a fresh, never reused address", "dense mmap/file vector grew beyond its first 1 Mi elements", "dumped as array and reloaded", "dumped as list and reloaded", "full disk reported as std::system_error", "sparse or dense mmap/file vector grew beyond 2^20 entries while filling", "FlexMem switched from sparse to dense (lowered threshold)", "FlexMem in dense mode holds several 64Ki blocks"],
     "components_real": ["all registered index map types (dense/sparse x mem/mmap/file, sparse_mem_map, flex_mem) through MapFactory", "osmium::MemoryMapping / mmap_vector_base / mmap_vector_file on real temporary files and real pages", "NodeLocationsForWays", "reliable_write for dumps"],
     "components_stubbed": ["placement of mmap()/mremap() results (always-move policy via MAP_FIXED_NOREPLACE/MREMAP_FIXED on a never reused address range)", "fstatvfs free-space report", "dump target fd (in-memory file with short writes/EINTR); the dumped bytes are copied to a real file for reloading"],
     "assumptions": ["single-threaded: no scheduler decisions are involved", "restricted claim: histories have up to ~600 ids (a few with ids up to 3*2^20 so that the 1 Mi-element growth steps of the dense mmap/file vectors happen); the 2^24-entry FlexMem threshold is crossed through hook H3 (flexmem_min_dense_entries) in the quick tier and at its shipped value only in the thorough tier (mode flexbig, 4 runs); mode growth fills the sparse and dense mmap/file vectors with 2^20+1 .. 2^20+1.2*10^6 entries (stride/offset/order from the tape) and checks sampled probes against a formula model", "after a failed growth (full disk) only the exception type is checked"],
